@@ -325,8 +325,3 @@ def describe(items, ind=0):
 
 def has_block(items):
     return any(it["t"] == "B" for it in items)
-
-
-def strip(items):
-    """flat (block-free) items -> steps understood by programs.to_ref"""
-    return [it for it in items]
